@@ -490,6 +490,11 @@ func (p *parser) parsePath() (types.Path, error) {
 	if err := p.readToken(); err != nil {
 		return "", err
 	}
+	return p.parsePathRest(path)
+}
+
+// parsePathRest parses { '::' IDENT } after the first component of a path.
+func (p *parser) parsePathRest(path string) (types.Path, error) {
 	for p.tok.Type == tokenDoubleColon {
 		if err := p.readToken(); err != nil {
 			return "", err
@@ -788,6 +793,14 @@ func (p *parser) parseType() (ast.IsType, error) {
 	if p.tok.Type == tokenIdent && p.tok.Text == "Set" {
 		if err := p.readToken(); err != nil {
 			return nil, err
+		}
+		if p.tok.Type != tokenLAngle {
+			// not a set type: an entity/common type (or namespace) that is called Set
+			path, err := p.parsePathRest("Set")
+			if err != nil {
+				return nil, err
+			}
+			return ast.TypeRef(path), nil
 		}
 		if err := p.expect(tokenLAngle); err != nil {
 			return nil, err
